@@ -58,8 +58,12 @@ def body(ctx):
     for i in range(n):
         specs.append(('random session', scen.gen_session(rng, i, big=(i % 11 == 0), adversarial=(i % 2 == 1)), {}))
     from . import c10, c15
-    for s in c10.grid(ctx, rng)[:: (3 if ctx.quick else 1)]:
-        specs.append(('rejected transfer', s, {}))
+    for gi, s in enumerate(c10.grid(ctx, rng)):
+        if s.get('reorder') or gi % (3 if ctx.quick else 1) == 0:
+            specs.append(('rejected transfer', s, {}))
+    from . import c07
+    for n in range(4096 - 80, 4096 + 12):
+        specs.append(('push alignment', c07.spec_for(4096, n, rng.choice([15, 19]), ctx.seed + n), {}))
     for k in range(20 if ctx.quick else 200):
         sp = c15.scenario(ctx.seed + k, maxdata=rng.choice([4096, 65536]))
         for op in sp['ops']:
